@@ -68,6 +68,51 @@ def synth [Add K] [Mul K] [Add F] [Mul F] [Zero F] (χ : K → F) (kx ky : List 
 
 end spectral
 
+/-! ## 1b. An exact character: the (sparse) group ring `ℚ[ℤ/M]`
+
+`exp(2πi·q)` for `q ∈ (1/M)ℤ` is the `M`-th root of unity `ζ^(qM)`; the formal variable `X` stands for `ζ`.  With this
+character `synth` is executed exactly on the real code's lattices (`kx[m]·x[n] ∈ (1/M)ℤ` turns on every FFT/MFT grid pair
+of the spectral noise), with the real complex coefficients (`i = X^(M/4)`).  `Lemmas/Layer.lean` proves that evaluation
+at any `ζ` with `ζ^M = 1` in a field of characteristic 0 is a ring homomorphism, so what the driver prints, evaluated at
+`ζ = e^{2πi/M}` by the harness, is `synth (q ↦ ζ^(qM))`. -/
+
+/-- a formal sum `Σ coef · X^exp`; exponents are read modulo `M` -/
+structure Cyc (M : Nat) where
+  terms : List (Nat × Rat)
+deriving Repr
+
+namespace Cyc
+variable {M : Nat}
+instance : Zero (Cyc M) := ⟨⟨[]⟩⟩
+instance : Add (Cyc M) := ⟨fun a b => ⟨a.terms ++ b.terms⟩⟩
+instance : Mul (Cyc M) :=
+  ⟨fun a b => ⟨a.terms.flatMap fun s => b.terms.map fun t => ((s.1 + t.1) % M, s.2 * t.2)⟩⟩
+/-- the monomial `X^e` -/
+def mono (e : Nat) : Cyc M := ⟨[(e % M, 1)]⟩
+/-- `re + im·i` with `i = X^(M/4)` (`4 ∣ M`) -/
+def ofComplex (re im : Rat) : Cyc M := ⟨[(0, re), (M / 4, im)]⟩
+/-- the coefficient of `X^r` -/
+def coeff (a : Cyc M) (r : Nat) : Rat := (a.terms.filter fun t => t.1 % M == r).foldl (fun acc t => acc + t.2) 0
+/-- dense coefficients `[a_0, …, a_{M-1}]` -/
+def dense (a : Cyc M) : List Rat := (List.range M).map a.coeff
+end Cyc
+
+/-- the exponent of `X` for the phase `q` turns: `⌊qM⌋ mod M` -/
+def cycExp (M : Nat) (q : Rat) : Nat := ((q * (M : Rat)).floor % (M : Int)).toNat
+
+/-- the universal character of period 1 with values in `ℚ[ℤ/M]`: `q ↦ X^(qM)` (a character on `(1/M)ℤ`) -/
+def cycChar (M : Nat) (q : Rat) : Cyc M := Cyc.mono (cycExp M q)
+
+/-- `fourier.backward(C)` on the points `(x, y)`, `x` fastest, exactly: `synth` with the character `cycChar M`;
+`C = Cre + i·Cim`; answer: dense coefficient lists, one per point.  `none` if a phase is not in `(1/M)ℤ`. -/
+def synthCyc (M : Nat) (xs ys kx ky cre cim : List Rat) : Option (List (List Rat)) :=
+  let ok := kx.all fun a => xs.all fun x => (a * x * (M : Rat)).den == 1
+  let ok' := ky.all fun b => ys.all fun y => (b * y * (M : Rat)).den == 1
+  if ok && ok' && M % 4 == 0 && cre.length == cim.length then
+    let C : List (Cyc M) := List.zipWith Cyc.ofComplex cre cim
+    some (ys.flatMap fun y => xs.map fun x => (synth (cycChar M) kx ky C x y).dense)
+  else none
+
 section extrude
 variable {α : Type}
 
